@@ -175,6 +175,16 @@ def _task(args):
                     st["variants"] += 1
                     if m2 is None or m2.hash != m.hash:
                         v("hash_depends_on_context", defn, p, n, f"{label}: hash {getattr(m2, 'hash', None)!r} vs {m.hash!r}", {"variant": label})
+                # the same payload arriving through the other entry points (frame by frame where the format is frame level)
+                if first and 0 < n <= 223 and (defn.fast or n <= 8):
+                    for ename, fn in wire.entry_points(defn.pgn, p.to_bytes(n, "little"), defn.fast, prio=3, src=1, dst=255).items():
+                        try:
+                            m4 = fn(A)
+                        except Exception:  # noqa: BLE001
+                            m4 = None
+                        st["variants"] += 1
+                        if m4 is None or m4.hash != m.hash:
+                            v("hash_depends_on_context", defn, p, n, f"through {ename}: hash {getattr(m4, 'hash', None)!r} vs {m.hash!r}", {"variant": "entry point " + ename})
                 m3 = dec_line(OFF, defn.pgn, p, n)
                 st["variants"] += 1
                 if m3 is not None and m3.hash is not None:
@@ -246,7 +256,7 @@ def run(ctx):
         "rule": "cases = payloads differing from bases mid/max in one field, in one key + one non-key field, or in two key fields (grid of 22 small raws each); hashed = those that decode; "
                 "distinct_outcomes = distinct hashes seen; non-trivial = at least one field off base",
         "samples": samples, "definitions_with_key_fields": tot["key_defs"], "cross_process_payloads": len(xproc),
-        "bound_completed": ("single-field deviations from 5 bases (<=12 raws per field, all for key fields), two-field deviations from base mid for definitions of <=12 fields, key x non-key pairs" if ctx.thorough else "all single-field deviations (<=5 raws per field, all for key fields) and key x non-key pairs from bases mid and max"), "exhaustive": True,
+        "bound_completed": ("single-field deviations from 5 bases (<=12 raws per field, all for key fields), two-field deviations from base mid for definitions of <=12 fields, key x non-key pairs, key x key pairs (22 x 22 small raws); first payload of every definition through 6 entry points" if ctx.thorough else "all single-field deviations (<=5 raws per field, all for key fields), key x non-key pairs and key x key pairs (22 x 22 small raws) from bases mid and max; first payload of every definition through 6 entry points"), "exhaustive": True,
     }
     return {"coverage": cov, "violations": vios,
             "assumptions": ["key equality is taken over the reported raw values of the fields the database flags PartOfPrimaryKey",
